@@ -215,3 +215,129 @@ func snakeOf(s string) string {
 	}
 	return b.String()
 }
+
+// Embedded (anonymous) members, required and optional, and members that depend on another one
+// (optional=Dep): the key spellings the loader accepts for ordinary members are accepted for
+// these too - the values must arrive, and the all-or-none rule must still be enforced.
+type cfEmbedReq struct {
+	CfBaseExported
+	Name string
+}
+
+type CfBaseExported struct {
+	HostName string
+	Port     int
+}
+
+type cfEmbedOpt struct {
+	CfBaseExported `json:",optional"`
+	Name           string
+}
+
+type cfDep struct {
+	Alpha string `json:",optional"`
+	Beta  string `json:",optional=Alpha"`
+}
+
+func TestVerifConfEmbeddedAndDependent(t *testing.T) {
+	defer vrt.WriteReport()
+	if !vrt.Shard(6) {
+		return
+	}
+	c := vrt.NewCases("conf/embedded-and-dependent-members")
+	for _, hn := range spellings("HostName", "host_name") {
+		for _, po := range spellings("Port", "port") {
+			for _, nm := range spellings("Name", "name") {
+				doc := fmt.Sprintf(`{%q:"h",%q:1,%q:"n"}`, hn, po, nm)
+				in := "doc=" + doc
+				var req cfEmbedReq
+				err := LoadFromJsonBytes([]byte(doc), &req)
+				c.Eval("required-embedded "+hn+"/"+po, func() any { return map[string]any{"doc": doc, "err": fmt.Sprint(err), "got": fmt.Sprintf("%+v", req)} })
+				if err != nil || req.HostName != "h" || req.Port != 1 || req.Name != "n" {
+					c.Violation(in, "required embedded member", fmt.Sprintf("loaded %+v, err=%v; want HostName=h Port=1 Name=n", req, err))
+				}
+				var opt cfEmbedOpt
+				err = LoadFromJsonBytes([]byte(doc), &opt)
+				c.Eval("optional-embedded "+hn+"/"+po, func() any { return map[string]any{"doc": doc, "err": fmt.Sprint(err), "got": fmt.Sprintf("%+v", opt)} })
+				if err != nil || opt.HostName != "h" || opt.Port != 1 || opt.Name != "n" {
+					c.Violation(in, "optional embedded member", fmt.Sprintf("loaded %+v, err=%v; want HostName=h Port=1 Name=n (the document's values must not be lost)", opt, err))
+				}
+			}
+		}
+	}
+	// optional embedded member: absent altogether is fine, half of it is an error
+	var opt cfEmbedOpt
+	if err := LoadFromJsonBytes([]byte(`{"name":"n"}`), &opt); err != nil || opt.HostName != "" || opt.Name != "n" {
+		c.Violation(`{"name":"n"}`, "optional embedded member absent", fmt.Sprintf("loaded %+v, err=%v", opt, err))
+	}
+	for _, hn := range spellings("HostName", "host_name") {
+		var half cfEmbedOpt
+		doc := fmt.Sprintf(`{%q:"h","name":"n"}`, hn)
+		if err := LoadFromJsonBytes([]byte(doc), &half); err == nil {
+			c.Violation(doc, "optional embedded member half set", fmt.Sprintf("an optional embedded member with only one of its two required fields was accepted: %+v", half))
+		}
+	}
+	// dependent members: both or none
+	for _, al := range spellings("Alpha", "alpha") {
+		for _, be := range spellings("Beta", "beta") {
+			cases := []struct {
+				doc     string
+				wantErr bool
+			}{
+				{fmt.Sprintf(`{%q:"1",%q:"2"}`, al, be), false},
+				{fmt.Sprintf(`{%q:"1"}`, al), true},
+				{fmt.Sprintf(`{%q:"2"}`, be), true},
+				{`{}`, false},
+			}
+			for _, k := range cases {
+				var d cfDep
+				err := LoadFromJsonBytes([]byte(k.doc), &d)
+				c.Eval(fmt.Sprintf("dependent %s err=%v", k.doc, err != nil), func() any { return map[string]any{"doc": k.doc, "err": fmt.Sprint(err), "got": fmt.Sprintf("%+v", d)} })
+				if (err != nil) != k.wantErr {
+					c.Violation("doc="+k.doc, "dependent members", fmt.Sprintf("Beta is optional=Alpha (both or none): loaded %+v, err=%v, want error=%v", d, err, k.wantErr))
+				}
+			}
+		}
+	}
+	c.Done()
+}
+
+// Map-typed members: the keys inside the map are data, not member names - they arrive as
+// written, whatever they look like.
+type cfLabels struct {
+	Labels map[string]string
+	Nested map[string]map[string]int `json:",optional"`
+}
+
+func TestVerifConfMapData(t *testing.T) {
+	defer vrt.WriteReport()
+	if !vrt.Shard(6) {
+		return
+	}
+	c := vrt.NewCases("conf/map-member-data-keys")
+	for _, keys := range [][]string{{"app"}, {"appName"}, {"app_name"}, {"Tier"}, {"app_name", "Tier"}, {"a_b_c", "X"}, {"app-name"}, {"APP"}} {
+		var parts []string
+		want := map[string]string{}
+		for i, k := range keys {
+			parts = append(parts, fmt.Sprintf("%q:%q", k, fmt.Sprint("v", i)))
+			want[k] = fmt.Sprint("v", i)
+		}
+		for _, member := range spellings("Labels", "labels") {
+			doc := fmt.Sprintf(`{%q:{%s}}`, member, strings.Join(parts, ","))
+			var got cfLabels
+			err := LoadFromJsonBytes([]byte(doc), &got)
+			c.Eval(fmt.Sprintf("keys=%v member=%s", keys, member), func() any {
+				return map[string]any{"doc": doc, "err": fmt.Sprint(err), "labels": fmt.Sprint(got.Labels)}
+			})
+			if err != nil {
+				c.Violation("doc="+doc, "map member rejected", err.Error())
+				continue
+			}
+			if !reflect.DeepEqual(got.Labels, want) {
+				cls := "map data keys rewritten"
+				c.Violation("doc="+doc, cls, fmt.Sprintf("the map member holds %v, the document says %v", got.Labels, want))
+			}
+		}
+	}
+	c.Done()
+}
